@@ -210,8 +210,8 @@ M('mean_waveforms_unweighted', ['C08'], 'phylib/io/model.py',
 M('mean_waveforms_wrong_dominant', ['C08'], 'phylib/io/model.py',
   "        best_template = np.argmax(count)\n", "        best_template = np.nonzero(count)[0][0]\n")
 M('nan_idx_only_template_range', ['C08'], 'phylib/io/model.py',
-  "        nan_idx = np.array([idx for idx, val in inverse_mapping_dict.items() if len(val) == 0])",
-  "        nan_idx = np.array([idx for idx, val in inverse_mapping_dict.items() if len(val) == 0 and idx < len(np.unique(self.spike_templates)) + 2])")
+  "            [idx for idx, val in inverse_mapping_dict.items() if len(val) == 0], dtype=np.int64)",
+  "            [idx for idx, val in inverse_mapping_dict.items() if len(val) == 0 and idx < len(np.unique(self.spike_templates)) + 2], dtype=np.int64)")
 M('cluster_waveforms_single_skipped', ['C08'], 'phylib/io/model.py',
   "            elif len(val) == 1:\n                data[clust, :, :] = self.sparse_templates.data[val[0], :, :]",
   "            elif len(val) == 1 and clust < self.n_templates:\n                data[clust, :, :] = self.sparse_templates.data[val[0], :, :]")
